@@ -54,4 +54,37 @@ Register r12("C12", [](Tier t) {
                                          {3, shapeCase("C12", RENDEZVOUS, 3, T, ops(3, 1, n), sl)},
                                          {1, shapeCase("C12", TWO_RESOURCES, 3, T, ops(4, 1, n), sl)}});
 });
+
+// ---- small-scope program spaces (systematic enumeration of schedules, thorough tier)
+// op alphabet: {read, write} x {0, 1 yield inside}; raw calls (the guards are the same code path)
+Case rwprog(const std::string &prop, int shape, std::vector<std::vector<int>> per) {
+    Case c; c.prop = prop; c.h = {shape, (int)per.size()};
+    // ops are listed round-robin so that thread t gets exactly per[t] in order (the executor groups ops by `a % nthreads`)
+    size_t maxlen = 0; for (auto &v : per) maxlen = std::max(maxlen, v.size());
+    for (size_t i = 0; i < maxlen; ++i) for (size_t t = 0; t < per.size(); ++t) if (i < per[t].size()) { int code = per[t][i]; c.ops.push_back(Op{code & 1, (int)t, (code & 2) ? 2 : 0, 0}); }
+    return c;
+}
+EnumSpace rwspace(const std::string &prop) {
+    EnumSpace e;
+    // A: 3 threads x 1 op (4^3 = 64);  B: 2 threads x 2 ops (4^4 = 256);  C: 4 threads x 1 op without yields (2^4 = 16);
+    // D: batch prefix  W(hold) | R | R | W  + one more op on thread 1 or 2 (4 x 2 = 8)
+    e.count = 64 + 256 + 16 + 8;
+    e.description = "Resource programs: 3 threads x 1 op, 2 threads x 2 ops (op in {read,write} x {0,1 yield inside}), 4 threads x 1 op, batch shape with one extra op";
+    e.at = [prop](size_t i) {
+        if (i < 64) return rwprog(prop, FREE, {{(int)(i & 3)}, {(int)((i >> 2) & 3)}, {(int)((i >> 4) & 3)}});
+        i -= 64;
+        if (i < 256) return rwprog(prop, FREE, {{(int)(i & 3), (int)((i >> 2) & 3)}, {(int)((i >> 4) & 3), (int)((i >> 6) & 3)}});
+        i -= 256;
+        if (i < 16) return rwprog(prop, FREE, {{(int)(i & 1)}, {(int)((i >> 1) & 1)}, {(int)((i >> 2) & 1)}, {(int)((i >> 3) & 1)}});
+        i -= 16;
+        std::vector<std::vector<int>> per{{3}, {0}, {0}, {1}};
+        per[1 + (i & 1)].push_back((int)(i >> 1));
+        return rwprog(prop, FREE, per);
+    };
+    return e;
+}
+RegisterEnum e01("C01", rwspace("C01"));
+RegisterEnum e02("C02", rwspace("C02"));
+RegisterEnum e03("C03", rwspace("C03"));
+RegisterEnum e12("C12", rwspace("C12"));
 } // namespace
